@@ -11,11 +11,23 @@ GEN_FUNCS = []
 NEEDS_DRIVER = False
 LEVEL_TEXT = ("Kernel-`decide`d theorem on the access table regenerated from every kernel/launch of /repo on every run: every device access to a batched ('*'-led) Model field outside set_const is a "
               "READ at `worldid % <that field>.shape[0]` — world w sees exactly slice w % n, i.e. what an unbatched Model holding that slice shows it; with NI-world (C09) no other slice can influence "
-              "it. set_const's writes to batched fields are listed with their index classes (two use another field's batch size). Per-field differential on the real code: a Model whose field holds "
-              "different values per world vs unbatched Models holding each slice, bit for bit, fields drawn from the regenerated table.")
-LEVEL_NOTE = ("C10_partial: fields consumed on the HOST at put_model/make_data time (never read by a device kernel) are outside the table and listed in the evidence as host-consumed; the differential "
-              "covers float fields only. The flex ccd_tolerance deviation found by this table was repaired (fix: commit). Trusted: Lean kernel, E3 extractor.")
-ASSUMPTIONS = ["perturbations are multiplicative (0.8..1.2) for non-zero fields and small non-negative offsets (0.01..0.06, slice 0 unchanged) for all-zero fields, so that the model stays valid"]
+              "it (`x % f.shape[0]` with x not the world id is class `other` and breaks the theorem; the non-collision consumers of geom_size — spatial-tendon wrapping, fluid forces — are proved "
+              "to be rows of the table). set_const's writes to batched fields are listed with their index classes (two use another field's batch size). Differentials on the real code, bit for "
+              "bit: (1) per field, random trees over a floor: a Model whose field holds different values per world vs unbatched Models holding each slice, fields drawn from the regenerated table; "
+              "(2) a composite scene whose NON-collision stages consume batched geometry/option fields (spatial tendons wrapping a cylinder / sphere / sphere on a moving body, side site; fluid "
+              "forces ellipsoid + inertia-box + wind; rangefinders on wrap geoms / ellipsoid / sphere incl. invisible geoms; geom distance/normal/fromto, magnetometer, camera projection, geom "
+              "frame sensors; contacts, joint/tendon limits, friction loss), configurations in rotation (SLEEP flag = compact solve, cone, integrator, side site): every float batched Model field "
+              "at once with MIXED batch sizes (nworld / proper divisor / 1) with bisection to the responsible field, one geometry field alone, and the batched Option fields (timestep, gravity, "
+              "wind, magnetic, density, viscosity, impratio, sleep/ccd tolerance; solver tolerance / ls_tolerance alone over 3 decades) against the Model+Data that put_model/put_data build "
+              "from an MjModel holding world w's option values.")
+LEVEL_NOTE = ("C10_partial: fields consumed on the HOST at put_model/make_data time (never read by a device kernel) are outside the table and listed in the evidence as host-consumed; arrays handed whole "
+              "to a wp.func (ray, sensor and narrowphase helpers) are indexed inside the callee, which the table does not see — those consumers are covered by differential (2) only; the "
+              "differentials cover float fields only. Recorded deviation (known_findings C10-compact-tolerance): under the SLEEP flag solve_compact takes its tolerances from host constants "
+              "d.ctol / d.cls_tol, so m.opt.tolerance / ls_tolerance have no effect there; reported when OBSERVED with the exact signature (every world bit-equal to the run with the MjModel's own "
+              "value). The flex ccd_tolerance deviation found by this table was repaired (fix: commit). Trusted: Lean kernel, E3 extractor.")
+ASSUMPTIONS = ["perturbations are multiplicative (0.8..1.2) for non-zero fields and small non-negative offsets (0.01..0.06, slice 0 unchanged) for all-zero fields, so that the model stays valid; "
+               "rgba fields: alpha of random entries zeroed in slices > 0; solver tolerances: log-uniform 1e-5..3e-2 (tolerance), 3e-3..0.5 (ls_tolerance)",
+               "the composite scene keeps its tendons away from stationary points of their length (tendon_invweight0 > 0) and caps solver iterations at 10 (CPU runs every iteration)"]
 
 VERIF = os.path.abspath(os.path.join(os.path.dirname(__file__), "..", ".."))
 
@@ -30,6 +42,408 @@ def _get(m, field):
   cls, name = field.split(".")
   obj = m if cls == "Model" else (m.opt if cls == "Option" else m.stat)
   return obj, name
+
+
+def _v(x):
+  return " ".join(f"{float(t):.4g}" for t in np.atleast_1d(x))
+
+def _feature_scene(rng, k):
+  """composite scene whose NON-collision stages consume batched geometry / option fields: spatial tendons wrapping a cylinder, a sphere (optionally with a
+  side site) and a sphere carried by a moving body; fluid forces (ellipsoid and inertia-box models, wind); rangefinders looking at the wrap geoms, an
+  ellipsoid and a sphere; geom distance/normal/fromto sensors; magnetometer, camera projection, geom frame sensors; contacts, joint/tendon limits and
+  friction loss for the constraint solver.  k selects the rotating configuration (sleep flag, cone, integrator, side site, moving wrap geom)."""
+  sleep = (k % 2 == 1)
+  j = k // 2
+  cone = "elliptic" if (j + j // 4) % 2 == 0 else "pyramidal"
+  integ = ("Euler", "implicit", "implicitfast", "RK4")[j % 4] if not sleep else ("Euler", "implicitfast", "implicit")[j % 3]
+  sidesite = (k % 3 == 0)
+  moving_wrap = (k % 3 != 1)
+  ra, rb, rc = rng.uniform(0.07, 0.13), rng.uniform(0.06, 0.11), rng.uniform(0.05, 0.08)
+  za, zb = rng.uniform(0.85, 0.95), rng.uniform(0.85, 0.95)
+  wind = rng.uniform(-1, 1, size=3)
+  flag = '<flag sleep="enable"/>' if sleep else ""
+  side = '<site name="side" pos="-.4 0 1.3"/>' if sidesite else ""
+  sidea = ' sidesite="side"' if sidesite else ""
+  cgeom = f'<geom name="wrapC" type="sphere" size="{rc:.4g}" pos="0 0 -.25" contype="0" conaffinity="0" rgba="1 1 1 1"/>' if moving_wrap else ""
+  tc = """
+    <spatial name="tc" stiffness="80" damping="1" springlength="0.5" limited="true" range="0.2 0.75" solreflimit="0.01 1">
+      <site site="c_top"/><geom geom="wrapC"/><site site="c_bot"/>
+    </spatial>""" if moving_wrap else ""
+  xml = f"""<mujoco>
+  <compiler angle="radian"/>
+  <option timestep="0.004" density="{rng.uniform(0.8, 1.5):.4g}" viscosity="{rng.uniform(0.01, 0.05):.4g}" wind="{_v(wind)}" magnetic="0.1 -0.3 0.45"
+          integrator="{integ}" cone="{cone}" impratio="{rng.uniform(1.5, 4):.4g}" tolerance="1e-8" ls_tolerance="0.01" iterations="10">{flag}</option>
+  <worldbody>
+    <geom name="floor" type="plane" size="5 5 .1"/>
+    <camera name="cam" pos="0 -3 1.2" xyaxes="1 0 0 0 0.2 1" fovy="50"/>
+    <site name="anchor" pos="0 0 1"/>
+    <body name="rig" pos="0 0 2.2">
+      <joint name="jrig" type="slide" axis="1 0 0" damping="5" stiffness="50"/>
+      <geom name="grig" type="box" size=".5 .05 .02" mass="1" contype="0" conaffinity="0"/>
+      <site name="eye" pos="0 0 0" euler="3.1416 0 0"/>
+      <site name="eyeA" pos=".4 0 0" euler="3.1416 0 0"/>
+      <site name="eyeB" pos="-.4 0 0" euler="3.1416 0 0"/>
+      <site name="eyeF" pos=".4 -.5 0" euler="3.1416 0 0"/>
+    </body>
+    {side}
+    <geom name="wrapA" type="cylinder" size="{ra:.4g} .2" pos=".4 0 {za:.4g}" euler="1.5708 0 0" contype="0" conaffinity="0"/>
+    <geom name="wrapB" type="sphere" size="{rb:.4g}" pos="-.4 0 {zb:.4g}" contype="0" conaffinity="0"/>
+    <body name="a" pos=".8 0 .7">
+      <joint name="ja" type="slide" axis="0 0 1" damping="2" frictionloss="0.2"/>
+      <geom name="ga" type="capsule" size=".05 .08" mass="1" contype="0" conaffinity="0"/>
+      <site name="sa"/>
+      <site name="ma" pos="0 .02 0" euler="0.3 0.2 0.1"/>
+    </body>
+    <body name="b" pos="-.8 0 .7">
+      <joint name="jb" type="slide" axis="0 0 1" damping="2" limited="true" range="-.2 .02"/>
+      <geom name="gb" type="box" size=".05 .04 .06" mass="1" contype="0" conaffinity="0"/>
+      <site name="sb"/>
+    </body>
+    <body name="c" pos="0 .6 1.5">
+      <joint name="jc1" type="hinge" axis="0 1 0" damping=".1" stiffness="1"/>
+      <geom name="gc" type="capsule" fromto="0 0 0 0 0 -.5" size=".02" mass=".5" contype="0" conaffinity="0"/>
+      <site name="c_top" pos=".15 0 0"/>
+      {cgeom}
+      <body name="c2" pos="0 0 -.5">
+        <joint name="jc2" type="hinge" axis="0 1 0" damping=".1"/>
+        <geom name="gc2" type="ellipsoid" size=".05 .03 .08" pos="0 0 -.1" mass=".4" fluidshape="ellipsoid" contype="0" conaffinity="0"/>
+        <site name="c_bot" pos="-.12 0 0"/>
+      </body>
+    </body>
+    <body name="f1" pos="{_v(rng.uniform(-.1, .1, 2))} {0.1 - rng.uniform(.001, .004):.4g}">
+      <freejoint name="jf1"/>
+      <geom name="gf1" type="ellipsoid" size=".12 .08 .1" mass=".6" fluidshape="ellipsoid" friction="{rng.uniform(.5, 1.2):.3g} .01 .001"/>
+      <site name="sf1" pos="0 0 .1"/>
+    </body>
+    <body name="f2" pos="{_v(rng.uniform(.36, .44, 1))} -.5 {0.08 - rng.uniform(.001, .004):.4g}" euler="0 0 {rng.uniform(0, 1):.3g}">
+      <freejoint name="jf2"/>
+      <geom name="gf2" type="box" size=".1 .07 .08" mass=".8" friction="{rng.uniform(.5, 1.2):.3g} .01 .001"/>
+      <body name="f2b" pos="0 0 .16">
+        <joint name="jf2b" type="hinge" axis="1 0 0" limited="true" range="-.3 .3" frictionloss=".05"/>
+        <geom name="gf2b" type="sphere" size=".06" mass=".2"/>
+      </body>
+    </body>
+  </worldbody>
+  <tendon>
+    <spatial name="ta" stiffness="300" damping="2" springlength="0.6" frictionloss="0.3">
+      <site site="anchor"/><geom geom="wrapA"/><site site="sa"/>
+    </spatial>
+    <spatial name="tb" stiffness="300" springlength="0.6" limited="true" range="0.3 0.84" solreflimit="0.05 1">
+      <site site="anchor"/><geom geom="wrapB"{sidea}/><site site="sb"/>
+    </spatial>{tc}
+  </tendon>
+  <actuator>
+    <motor name="mta" tendon="ta" gear="3"/>
+    <position name="pjb" joint="jb" kp="20" kv="1"/>
+    <general name="gjc" joint="jc1" gainprm="4" biastype="affine" biasprm="0.1 -2 -0.2" dyntype="filter" dynprm="0.05"/>
+  </actuator>
+  <sensor>
+    <tendonpos tendon="ta"/><tendonpos tendon="tb"/><tendonvel tendon="ta"/><tendonlimitfrc tendon="tb"/>
+    <actuatorfrc actuator="mta"/><jointlimitfrc joint="jb"/>
+    <rangefinder site="eye"/><rangefinder site="eyeA"/><rangefinder site="eyeB"/><rangefinder site="eyeF"/>
+    <distance geom1="gf1" geom2="wrapB" cutoff="3"/><normal geom1="gb" geom2="wrapB" cutoff="3"/><fromto geom1="ga" geom2="wrapA" cutoff="3"/>
+    <magnetometer site="ma"/><camprojection site="sa" camera="cam"/>
+    <framepos objtype="geom" objname="gc2" reftype="site" refname="ma"/><framequat objtype="geom" objname="gf2" reftype="site" refname="ma"/>
+    <subtreecom body="c"/><framelinvel objtype="site" objname="c_bot"/>
+  </sensor>
+</mujoco>"""
+  return xml, dict(sleep=sleep, cone=cone, integ=integ, sidesite=sidesite, moving_wrap=moving_wrap)
+
+
+# batched Option fields (the access table sees most of them; opt.magnetic reaches its consumer through a wp.func parameter and is invisible to it)
+OPTION_FIELDS = ("timestep", "gravity", "wind", "magnetic", "density", "viscosity", "impratio", "sleep_tolerance", "ccd_tolerance")
+SOLVER_TOL_FIELDS = ("tolerance", "ls_tolerance")
+# geometry / pose fields whose NON-collision consumers the feature scene exercises (one of them is additionally tested alone per case, in rotation)
+GEOMETRY_FIELDS = ("Model.geom_size", "Model.geom_pos", "Model.site_pos", "Model.geom_quat", "Model.site_quat", "Model.body_pos", "Model.body_ipos",
+                   "Model.geom_rgba", "Model.body_inertia", "Model.body_quat", "Model.cam_fovy", "Model.body_iquat", "Model.cam_pos", "Model.body_mass",
+                   "Model.tendon_lengthspring", "Model.cam_quat", "Model.tendon_range", "Model.jnt_pos")
+OBSERVED = ("qpos", "qvel", "act", "sensordata", "ten_length", "ten_velocity", "wrap_xpos", "actuator_length", "geom_xpos", "site_xpos", "qfrc_fluid",
+            "qfrc_passive", "qfrc_actuator", "qacc", "solver_niter", "nefc")
+
+
+def _model_float_fields(m0, names):
+  out = []
+  for f in names:
+    o0, n0 = _get(m0, f)
+    a0 = getattr(o0, n0, None)
+    if a0 is not None and hasattr(a0, "numpy"):
+      b0 = a0.numpy()
+      if b0.dtype.kind == "f" and b0.size and b0.shape[0] == 1:
+        out.append(f)
+  return out
+
+
+def _rows(rng, field, base, nb):
+  """per-batch-entry values of a Model field: x0.8..1.2 (non-zero fields) / small offsets (all-zero fields); rgba: alpha of some entries zeroed in the
+  later slices (the ray stage drops invisible geoms).  Slice 0 of an all-zero field stays at the model's value."""
+  if field.endswith("_rgba"):
+    out = np.concatenate([base * s for s in rng.uniform(0.8, 1.0, size=nb)], axis=0).astype(base.dtype)
+    for k in range(1, nb):
+      out[k, rng.random(out.shape[1]) < 0.4, 3] = 0.0
+    return out
+  if np.any(base != 0):
+    return np.concatenate([base * s for s in rng.uniform(0.8, 1.2, size=nb)], axis=0).astype(base.dtype)
+  return np.concatenate([base + (0.0 if k == 0 else rng.uniform(0.01, 0.06)) for k in range(nb)], axis=0).astype(base.dtype)
+
+
+def _feature_cases(ctx, acc, rng, ncases, nsteps):
+  """differential on the composite scene (see _feature_scene), three kinds of test per case:
+     G  every float batched Model field the device reads, ALL AT ONCE, with MIXED batch sizes (nworld / a divisor / 1), vs unbatched Models holding each
+        world's slices; a mismatch is attributed to a field by bisection;
+     S  one geometry field alone (rotation over GEOMETRY_FIELDS), same reference, with a sensitivity record;
+     O  the batched Option fields at once, and one solver tolerance alone, vs the Model that put_model/put_data build from an MjModel holding world w's
+        option values (host route: also sees values that make_data/put_data freeze on the host)."""
+  import copy
+  import mujoco
+  import warp as wp
+  import mujoco_warp as mjw
+  import dataclasses
+  from mujoco_warp._src import types
+  table = batched_fields()
+  all_batched = sorted(f"Model.{f.name}" for f in dataclasses.fields(types.Model) if getattr(f.type, "shape", None) and f.type.shape[0] == "*")
+  RANGEFINDER = int(mujoco.mjtSensor.mjSENS_RANGEFINDER)
+  for c in range(ncases):
+    k = ctx.seed * ncases + c
+    xml, info = _feature_scene(rng, k)
+    mjm = mujoco.MjModel.from_xml_string(xml)
+    mjd = mujoco.MjData(mjm)
+    jadr = {mujoco.mj_id2name(mjm, mujoco.mjtObj.mjOBJ_JOINT, j): (mjm.jnt_qposadr[j], mjm.jnt_dofadr[j]) for j in range(mjm.njnt)}
+    mjd.qpos[jadr["ja"][0]] = rng.uniform(-0.05, 0.05)     # bodies a, b hang below the anchor: the tendons are not at a stationary point of their length
+    mjd.qpos[jadr["jb"][0]] = rng.uniform(0.03, 0.06)      # beyond jb's upper limit: joint-limit row active
+    mjd.qpos[jadr["jc1"][0]] = rng.uniform(-0.3, 0.3)
+    mjd.qpos[jadr["jc2"][0]] = rng.uniform(-0.3, 0.3)
+    mjd.qvel[:] = rng.normal(size=mjm.nv) * 0.4
+    for j in ("jf1", "jf2"):
+      mjd.qvel[jadr[j][1]: jadr[j][1] + 6] *= 0.2
+    mjd.ctrl[:] = rng.normal(size=mjm.nu) * 0.5
+    mujoco.mj_forward(mjm, mjd)
+    nworld = (2, 4, 4, 3, 4, 2, 3, 4)[k % 8]
+    div = 2 if nworld == 4 else nworld
+    rf_adr = [int(mjm.sensor_adr[s]) for s in range(mjm.nsensor) if mjm.sensor_type[s] == RANGEFINDER]
+    wrap_geom_tendons = [t for t in range(mjm.ntendon) if any(mjm.wrap_type[mjm.tendon_adr[t] + i] in (int(mujoco.mjtWrap.mjWRAP_SPHERE), int(mujoco.mjtWrap.mjWRAP_CYLINDER))
+                                                                   for i in range(mjm.tendon_num[t]))]
+    tag = "sleep" if info["sleep"] else "nosleep"
+    acc.hit(f"feature-case:{tag}:{info['cone']}:{info['integ']}")
+
+    def run(model, mjm_data, nw):
+      d = mjw.put_data(mjm_data, mjd, nworld=nw, naconmax=64 * nw, njmax=128)
+      for _ in range(nsteps):
+        mjw.step(model, d)
+      acc.evals += 1
+      return {nm: getattr(d, nm).numpy().copy() for nm in OBSERVED}
+
+    def differs(got, ref, w):
+      for nm in OBSERVED:
+        if not np.array_equal(got[nm][w], ref[nm][0], equal_nan=True):
+          a, b = got[nm][w].astype(float), ref[nm][0].astype(float)
+          with np.errstate(invalid="ignore"):
+            return nm, float(np.nanmax(np.abs(a - b))) if a.size else 0.0
+      return None
+
+    def activity(got, label):
+      """is the feature each consumer needs really active, and does the perturbation reach it (worlds differ)?"""
+      nw = got["qpos"].shape[0]
+      if not all(np.isfinite(got[nm]).all() for nm in ("qpos", "qvel", "sensordata")):
+        acc.hit(f"{label}:nonfinite")
+        return
+      wx = got["wrap_xpos"]
+      if wrap_geom_tendons and np.any(wx[:, :, 3:] != 0):
+        acc.hit(f"{label}:wrap-active")
+      for nm, what in (("ten_length", "tendon-length"), ("qfrc_fluid", "fluid-force"), ("solver_niter", "solver-niter"), ("qacc", "qacc")):
+        if nw > 1 and any(not np.array_equal(got[nm][w], got[nm][0]) for w in range(1, nw)):
+          acc.hit(f"{label}:{what}-varies")
+      rf = got["sensordata"][:, rf_adr]
+      if np.any(rf > 0):
+        acc.hit(f"{label}:ray-hit")
+      if nw > 1 and np.any(rf != rf[0]):
+        acc.hit(f"{label}:ray-varies")
+      if np.any(got["nefc"] > 0):
+        acc.hit(f"{label}:constraints-active")
+
+    # ---- Model-route tests (G, S): perturbed copies of put_model's arrays vs unbatched Models holding one slice each ----
+    m0 = mjw.put_model(mjm)
+    # every float '*'-led Model field, whether or not the access table lists it (arrays handed whole to a wp.func -- ray, sensor, narrowphase helpers -- are
+    # indexed inside the callee, which the table does not see)
+    cands = _model_float_fields(m0, sorted(set(f for f in table if f.startswith("Model.")) | set(all_batched)))
+    base = {f: getattr(*_get(m0, f)).numpy() for f in cands}
+    dtypes = {f: getattr(*_get(m0, f)).dtype for f in cands}
+
+    def plan(fields, force_batched=()):
+      """field -> per-batch-entry values; batch size nworld, a proper divisor, or (every 5th field) 1"""
+      out = {}
+      for i, f in enumerate(fields):
+        nb = (nworld, div, nworld, div, 1)[(i + k) % 5]
+        if f in force_batched and nb == 1:
+          nb = nworld
+        out[f] = _rows(rng, f, base[f], nb)
+      return out
+
+    def model_with(rows, w=None):
+      m = copy.copy(m0)      # shallow: a new Model object sharing put_model's arrays; only the perturbed fields are replaced (Model-route fields only)
+      for f, r in rows.items():
+        o, n = _get(m, f)
+        rr = r if w is None else r[w % r.shape[0]: w % r.shape[0] + 1]
+        setattr(o, n, wp.array(rr, dtype=dtypes[f]))
+      return m
+
+    def model_route(rows, label, worlds=None):
+      """-> (got, first mismatch (world, quantity, maxdiff) or None)"""
+      got = run(model_with(rows), mjm, nworld)
+      for w in (range(nworld) if worlds is None else worlds):
+        ref = run(model_with(rows, w), mjm, 1)
+        dq = differs(got, ref, w)
+        if dq:
+          return got, (w,) + dq
+      return got, None
+
+    def report_model(f, rows, mm, how):
+      w, nm, md = mm
+      nb = rows[f].shape[0]
+      acc.find(f"batched {f} (batch size {nb}, nworld {nworld}; {how}): world {w} {nm} differs from the unbatched model holding slice {w % nb} (max diff {md:.3g})",
+               "types.Model." + f.split(".")[1], "slice-mismatch", xml=xml, field=f, world=w, batch=nb, feature=info)
+
+    try:
+      # G: everything at once
+      rows = plan(cands, force_batched=GEOMETRY_FIELDS)
+      got, mm = model_route(rows, "G")
+      activity(got, f"G:{tag}")
+      acc.hit(f"G:fields:{len(rows)}")
+      if mm:
+        # attribute by bisection (single-culprit assumption; otherwise the group is reported)
+        fs = list(rows)
+        while len(fs) > 1:
+          half = fs[: len(fs) // 2]
+          _, mh = model_route({f: rows[f] for f in half}, "G-bisect")
+          if mh:
+            fs = half
+            continue
+          rest = fs[len(fs) // 2:]
+          _, mr = model_route({f: rows[f] for f in rest}, "G-bisect")
+          if mr:
+            fs = rest
+            continue
+          break
+        if len(fs) == 1:
+          _, m1 = model_route({fs[0]: rows[fs[0]]}, "G-bisect")
+          if m1:
+            report_model(fs[0], rows, m1, "found by bisection of the all-fields differential")
+          else:
+            fs = fs + ["?"]
+        if len(fs) != 1:
+          w, nm, md = mm
+          acc.find(f"all batched Model fields perturbed at once (nworld {nworld}): world {w} {nm} differs from the unbatched model holding its slices (max diff {md:.3g}); "
+                   f"not attributable to one field (remaining set: {fs[:6]}...)", "types.Model", "slice-mismatch-group", xml=xml, world=w, feature=info)
+      else:
+        acc.distinct.add(f"G:{tag}:{info['cone']}:{info['integ']}")
+      # S: one geometry field alone
+      geo = [f for f in GEOMETRY_FIELDS if f in cands]
+      f = geo[k % len(geo)]
+      nb = (nworld, div)[(k // len(geo)) % 2]
+      rows1 = {f: _rows(rng, f, base[f], nb)}
+      got, mm = model_route(rows1, "S")
+      if mm:
+        report_model(f, rows1, mm, "alone")
+      sens = [nm for nm in OBSERVED if any(not np.array_equal(got[nm][w], got[nm][0]) for w in range(1, nworld))]
+      acc.hit(f"S:{f}" + ("" if sens else ":insensitive"))
+      if sens:
+        acc.distinct.add(f)
+    except Exception as e:
+      acc.find(f"step with batched Model fields raised {type(e).__name__}: {e}", "forward.step", "crash", xml=xml, feature=info)
+
+    # ---- host-route tests (O): m.opt.<field> per world vs the Model/Data built from an MjModel holding world w's option values ----
+    def opt_rows(names, nbs):
+      out = {}
+      for nm, nb in zip(names, nbs):
+        if nm == "tolerance":
+          vals = np.exp(rng.uniform(np.log(1e-5), np.log(3e-2), size=nb))
+        elif nm == "ls_tolerance":
+          vals = np.exp(rng.uniform(np.log(3e-3), np.log(0.5), size=nb))
+        else:
+          b = np.asarray(getattr(mjm.opt, nm), dtype=float)
+          b = np.where(b != 0, b, 1e-3)
+          vals = np.stack([b * s for s in rng.uniform(0.8, 1.2, size=nb)])     # (nb,) for scalar options, (nb, 3) for vectors
+        out[nm] = np.asarray(vals, dtype=np.float32)
+      return out
+
+    def host_model(orows, w=None):
+      """w None: put_model(mjm) with m.opt fields replaced by the per-world arrays; else put_model of an MjModel with world w's values -> (Model, MjModel)"""
+      if w is None:
+        m = copy.copy(m0)
+        m.opt = copy.copy(m0.opt)
+        for nm, r in orows.items():
+          if nm == "impratio":
+            arr = (1.0 / np.sqrt(np.maximum(r.astype(np.float64), mujoco.mjMINVAL))).astype(np.float32)
+            m.opt.impratio_invsqrt = wp.array(arr, dtype=float)
+          else:
+            cur = getattr(m.opt, nm)
+            setattr(m.opt, nm, wp.array(r, dtype=cur.dtype))
+        return m, mjm
+      mjw_ = copy.copy(mjm)
+      for nm, r in orows.items():
+        v = r[w % r.shape[0]].astype(np.float64)
+        if np.ndim(getattr(mjw_.opt, nm)) == 0:
+          setattr(mjw_.opt, nm, float(v))
+        else:
+          getattr(mjw_.opt, nm)[:] = v
+      return mjw.put_model(mjw_), mjw_
+
+    def host_route(orows):
+      mb, _ = host_model(orows)
+      got = run(mb, mjm, nworld)
+      for w in range(nworld):
+        mw, mjm_w = host_model(orows, w)
+        ref = run(mw, mjm_w, 1)
+        dq = differs(got, ref, w)
+        if dq:
+          return got, (w,) + dq
+      return got, None
+
+    def report_opt(nm, orows, got, mm):
+      w, q, md = mm
+      nb = orows[nm].shape[0]
+      if nm in SOLVER_TOL_FIELDS and info["sleep"]:
+        # exact signature of the recorded deviation: under the SLEEP flag the compact solve takes its tolerances from d.ctol / d.cls_tol, host constants
+        # derived from the MjModel handed to make_data/put_data: the Model's value has NO effect, i.e. every world equals the run with the unmodified Model
+        plain = run(m0, mjm, 1)
+        if all(differs(got, plain, ww) is None for ww in range(nworld)):
+          acc.find(f"opt.{nm} per world (batch size {nb}, values {orows[nm].tolist()}) under the SLEEP flag has no effect at all: every world equals, bit for bit, the run "
+                   f"with the MjModel's own {nm}; world {w} {q} differs from the Model built from an MjModel holding its value (max diff {md:.3g})",
+                   "solver.solve_compact", "compact-tolerance-host-constant", xml=xml, field="Option." + nm, world=w, batch=nb, feature=info)
+          return
+      acc.find(f"batched opt.{nm} (batch size {nb}, nworld {nworld}): world {w} {q} differs from the Model built from an MjModel holding world {w}'s value (max diff {md:.3g})",
+               "types.Option." + nm, "slice-mismatch", xml=xml, field="Option." + nm, world=w, batch=nb, feature=info)
+
+    try:
+      names = list(OPTION_FIELDS)
+      orows = opt_rows(names, [(nworld, div, nworld, 1, nworld, div)[(i + k) % 6] for i in range(len(names))])
+      got, mm = host_route(orows)
+      activity(got, f"O:{tag}")
+      if mm:
+        hit = False
+        for nm in names:      # attribution: each option field alone
+          g1, m1 = host_route({nm: orows[nm]})
+          if m1:
+            report_opt(nm, orows, g1, m1)
+            hit = True
+        if not hit:
+          w, q, md = mm
+          acc.find(f"all batched Option fields perturbed at once (nworld {nworld}): world {w} {q} differs from the Model built from an MjModel holding its values "
+                   f"(max diff {md:.3g}); not attributable to one field", "types.Option", "slice-mismatch-group", xml=xml, world=w, feature=info)
+      else:
+        acc.distinct.add(f"O:{tag}:{info['cone']}:{info['integ']}")
+      # one solver tolerance alone; rotation makes (sleep, tolerance), (sleep, ls_tolerance), (no sleep, ...) all occur within 4 consecutive cases
+      nm = SOLVER_TOL_FIELDS[(k // 2) % 2]
+      trows = opt_rows([nm], [(nworld, div)[(k // 4) % 2]])
+      got, mm = host_route(trows)
+      if mm:
+        report_opt(nm, trows, got, mm)
+      varies = any(not np.array_equal(got[q][w], got[q][0]) for q in ("solver_niter", "qacc") for w in range(1, nworld))
+      acc.hit(f"O:{tag}:{nm}" + (":varies" if varies else ":no-effect-in-batched-run"))
+      if varies:
+        acc.distinct.add(f"Option.{nm}:{tag}")
+    except Exception as e:
+      acc.find(f"step with batched Option fields raised {type(e).__name__}: {e}", "forward.step", "crash", xml=xml, feature=info)
+    acc.sample({"feature": info, "nworld": nworld, "model_fields_at_once": len(cands)})
 
 
 def _run(ctx, ncases, nsteps):
@@ -127,16 +541,22 @@ def _run(ctx, ncases, nsteps):
   return acc, host_consumed
 
 
-RULE = ("random trees with actuators/limits/damping over a floor; for fields drawn at random from the regenerated table of batched Model fields that device kernels read: the field is given one slice "
-        "per batch entry (x0.8..1.2), batch size = nworld or a divisor; a few steps; every world must equal, bit for bit, an unbatched Model holding its slice; distinct = fields whose "
-        "perturbation changed the trajectory (non-trivial)")
+RULE = ("(1) random trees with actuators/limits/damping over a floor; for fields drawn at random from the regenerated table of batched Model fields that device kernels read: the field is given one slice "
+        "per batch entry (x0.8..1.2), batch size = nworld or a divisor; a few steps; every world must equal, bit for bit, an unbatched Model holding its slice. (2) composite scene "
+        "(wrapping spatial tendons, fluid, rangefinders, geom-distance / magnetometer / camera sensors, contacts+limits), configuration k in rotation (sleep flag k%2, cone, integrator, side site, "
+        "moving wrap geom, nworld 2/3/4): G = all float batched Model fields at once with mixed batch sizes vs unbatched Models holding world w's slices (mismatch -> bisection to the field); "
+        "S = one geometry field alone (rotation); O = batched Option fields at once and one solver tolerance alone vs put_model/put_data of an MjModel holding world w's option values. "
+        "Compared: qpos, qvel, act, sensordata, ten_length, ten_velocity, wrap_xpos, actuator_length, geom_xpos, site_xpos, qfrc_fluid, qfrc_passive, qfrc_actuator, qacc, solver_niter, nefc. "
+        "distinct = fields / configurations whose perturbation changed the trajectory (non-trivial); hits '<test>:<sleep>:<feature>' record that wrapping, fluid, rays, constraints were active")
 
 
 def correspondence(ctx):
   acc, host = _run(ctx, 8 if ctx.thorough else 4, 4 if ctx.thorough else 3)
+  _feature_cases(ctx, acc, np.random.default_rng(ctx.seed * 1000 + 110), 8 if ctx.thorough else 4, 3 if ctx.thorough else 2)
   return result(acc, RULE, extra={"host_consumed_batched_fields": host, "device_read_batched_fields": len(batched_fields())})
 
 
 def search(ctx, breaks):
   acc, host = _run(ctx, 12, 4)
-  return search_result(acc, "unbatched Model holding world w's slice (bitwise)")
+  _feature_cases(ctx, acc, np.random.default_rng(ctx.seed * 1000 + 110), 8, 3)
+  return search_result(acc, "unbatched Model holding world w's slice (bitwise); for Option fields the Model built from an MjModel holding world w's values")
